@@ -16,6 +16,10 @@
 //! numbers; it is told them and checks what they imply (which bytes left, and
 //! that nothing unstable was exposed).  `seen` lines in the *input* (a replayed
 //! transcript) are ignored.
+//! (`StepOut` has no field for post-execution `I` lines, so the line rides on the
+//! observation string: `"<obs>\nI seen <n> <rs>"`, which `main.rs` prints as the
+//! `O` line followed by the `I` line.  `tools/checklib.py` then sees it as one
+//! more op of the case, which is what replay and shrinking need.)
 //!
 //! The direct oracle is independent of the Lean model: a reference codec
 //! (`refcodec`) with literal production constants, and the real codec run
